@@ -25,6 +25,7 @@ import (
 
 func init() {
 	Register(&Scenario{
+		Pools: true,
 		Name:  "interop",
 		Props: []string{"C01", "C02"},
 		Plan: func(prop, tier string) []Batch {
@@ -86,7 +87,8 @@ type sent struct {
 	pd       *spec.PDU
 	pdu      protocol.PDU // struct handed to IEncode
 	expected any          // deep copy taken before IEncode, with the documented normalisation applied
-	bytes    []byte
+	bytes    []byte       // snapshot of the encoder's output, taken at return
+	live     []byte       // the slice the encoder returned (must still hold those octets after later encodes)
 }
 
 func genOptFor(c *core.Chooser) spec.GenOpt {
@@ -124,6 +126,11 @@ func runInterop(r *core.Run) {
 		interopLegB(r, proto, n, opt)
 	default:
 		interopMisfit(r, proto, opt)
+		// a refused encode must leave nothing behind: well-formed PDUs sent right after it still round-trip
+		if c.Bool() {
+			r.Probe("valid_after_refused_encode")
+			interopLegA(r, proto, 1+c.Intn(3), opt)
+		}
 	}
 }
 
@@ -171,7 +178,7 @@ func interopLegA(r *core.Run, proto *spec.Proto, n int, opt spec.GenOpt) {
 			return
 		}
 		r.Event("send %s %d octets", site, len(b))
-		s := sent{msg: m, pd: pd, pdu: pdu, expected: expected, bytes: append([]byte(nil), b...)}
+		s := sent{msg: m, pd: pd, pdu: pdu, expected: expected, bytes: append([]byte(nil), b...), live: b}
 		out = append(out, s)
 		stream = append(stream, b...)
 		ends = append(ends, len(stream))
@@ -182,6 +189,13 @@ func interopLegA(r *core.Run, proto *spec.Proto, n int, opt spec.GenOpt) {
 			}
 			// the stream is desynchronised from here on: the peers below would see garbage
 			checkModelPeerDesync(r, proto, stream, out)
+			return
+		}
+	}
+	// --- the octets returned by earlier IEncode calls are the caller's: later encodes must not have changed them
+	for i, s := range out {
+		if !bytes.Equal(s.live, s.bytes) {
+			r.Fail("C01", "encoded-bytes-changed", s.pd.Site(), "later-encode", "the octets returned by IEncode for PDU %d of %d changed while later PDUs were encoded", i+1, len(out))
 			return
 		}
 	}
@@ -383,6 +397,7 @@ func interopLegB(r *core.Run, proto *spec.Proto, n int, opt spec.GenOpt) {
 		r.Fail("C02", "decode", proto.Name, "framing", "sent %d conformant images, framer returned %d (%s)", len(out), len(frames), how)
 		return
 	}
+	reused := map[string]protocol.PDU{}
 	for i, s := range out {
 		site := s.pd.Site()
 		if !bytes.Equal(frames[i], s.b) {
@@ -390,6 +405,13 @@ func interopLegB(r *core.Run, proto *spec.Proto, n int, opt spec.GenOpt) {
 			return
 		}
 		fresh := ctor[site]()
+		// a receiver may decode into the same PDU value again and again: what an earlier image left
+		// behind must not show up among the values of this one
+		if prev, ok := reused[site]; ok && c.Bool() {
+			fresh = prev
+			r.Probe("decode_into_reused_struct")
+		}
+		reused[site] = fresh
 		var err error
 		if p := r.Call(site+".IDecode", func() { err = fresh.IDecode(frames[i]) }); p != nil {
 			r.Fail("C02", "panic", site, "IDecode/"+p.Kind, "IDecode of a conformant image panicked: %s at %s", p.Value, p.Frame)
